@@ -162,7 +162,7 @@ func c13Run(w *ndWriter, rng *rand.Rand, askers int, classes []string, modes []s
 // request (delta swept through zero).  Either outcome is admissible - (F(msg), nil) or (zero, timeout) - but nothing may panic.
 func c13Boundary(w *ndWriter, askers int) int {
 	rec := &recorder{}
-	rec.ev(E{"ev": "reset", "n": askers + 1})
+	rec.ev(E{"ev": "reset", "n": 2*askers + 1})
 	to := 800 * time.Microsecond
 	var wg sync.WaitGroup
 	for a := 1; a <= askers; a++ {
@@ -175,7 +175,7 @@ func c13Boundary(w *ndWriter, askers int) int {
 				return
 			}
 			start := time.Now()
-			for time.Since(start) < to+delta { // busy wait: sleep granularity is too coarse for this window
+			for ask.Message < 1000 && time.Since(start) < to+delta { // busy wait: sleep granularity is too coarse for this window (follow-up requests, message >= 1000, are answered at once)
 			}
 			outcome := "ok"
 			func() {
@@ -186,7 +186,11 @@ func c13Boundary(w *ndWriter, askers int) int {
 				}()
 				ask.Reply(10*ask.Message + 1)
 			}()
-			rec.ev(E{"ev": "reply", "req": a, "outcome": outcome})
+			req := a
+			if ask.Message >= 1000 {
+				req = askers + a
+			}
+			rec.ev(E{"ev": "reply", "req": req, "outcome": outcome})
 		})
 		rec.ev(E{"ev": "ask", "req": a, "msg": msg, "mode": "timeout", "class": "boundary"})
 		wg.Add(1)
@@ -208,6 +212,25 @@ func c13Boundary(w *ndWriter, askers int) int {
 				}
 			}()
 			rec.ev(E{"ev": "res", "req": a, "val": val, "err": errk})
+			// straight afterwards the same goroutine asks again with a generous timeout and gets its answer at once: whatever the first
+			// ask left behind (a timer that fired at the very moment the reply came) must not make this one time out
+			rec.ev(E{"ev": "ask", "req": askers + a, "msg": 1000 + a, "mode": "timeout", "class": "immediate"})
+			val, errk = 0, "nil"
+			func() {
+				defer func() {
+					if p := recover(); p != nil {
+						errk = "panic"
+					}
+				}()
+				v, err := fpgo.AskNewGenerics[int, int](1000+a).AskOnceWithTimeout(actor, 2*time.Second)
+				val = v
+				if err == fpgo.ErrActorAskTimeout {
+					errk = "timeout"
+				} else if err != nil {
+					errk = "other"
+				}
+			}()
+			rec.ev(E{"ev": "res", "req": askers + a, "val": val, "err": errk})
 		}()
 	}
 	wg.Wait()
